@@ -73,6 +73,9 @@ class QuicConnectionProtocol(asyncio.DatagramProtocol):
         self._quic.connect(addr, now=self._loop.time())
         if transmit:
             self.transmit()
+        else:
+            # leave the caller the rest of this loop iteration to queue 0-RTT data
+            self._transmit_soon()
 
     async def create_stream(
         self, is_unidirectional: bool = False
